@@ -257,7 +257,8 @@ def body_enum(ctx, case):
 # ------------------------------------------------------------------ bags, normalisation, paths
 def strat_bag():
     from hypothesis import strategies as st
-    hyp = st.text(alphabet="abc", max_size=5)
+    # symbols are code points: a base letter followed by a combining mark stays two symbols
+    hyp = st.text(alphabet="abc", max_size=5) | st.text(alphabet="ae\u0301\u0308c", max_size=5)
     sc = st.floats(-8.0, 0.0, allow_nan=False)
     entry = st.tuples(hyp, sc, st.one_of(st.none(), sc))
     return st.tuples(st.lists(entry, min_size=1, max_size=6, unique_by=lambda e: e[0]),
@@ -344,10 +345,56 @@ def body_paths(ctx, case):
         ctx.event("rotor_reset_needed")
 
 
+def strat_long():
+    from hypothesis import strategies as st
+    return st.tuples(st.integers(200, 1500), st.integers(0, 2 ** 31 - 1), st.integers(0, 3))
+
+
+def body_long(ctx, case):
+    """long lines: a network of hundreds of positions built from one hypothesis and a few variants of it."""
+    from pero_ocr.decoding import confusion_networks as CN
+    n, seed, n_var = case
+    import random
+    r = random.Random(seed)                      # a pure function of the drawn seed
+    base = "".join(r.choice("abc") for _ in range(n))
+    cn = []
+    cn = ctx.must("add_raises", CN.add_hypothese, cn, base, 1.0)
+    hyps = [base]
+    for k in range(n_var):
+        pos = r.randrange(0, n)
+        var = base[:pos] + r.choice("abc") + base[pos + 1:]
+        if k % 2:
+            var = var[:pos] + var[pos + 1:]
+        cn = ctx.must("add_raises", CN.add_hypothese, cn, var, 0.5)
+        hyps.append(var)
+    for h in hyps:
+        ctx.check(readable(cn, h), "hypothesis_not_readable_in_long_network", lambda: "length %d variants %d" % (n, n_var))
+    cn = ctx.must("normalize_raises", CN.normalize_cn, cn)
+    best = ctx.must("best_path_raises", CN.best_cn_path, cn)
+    ctx.check(best == base, "best_path_of_long_network", lambda: "length %d: best path differs from the dominant hypothesis" % n)
+    n_paths = 1
+    for p in cn:
+        n_paths *= len(p)
+    if n_paths <= 64:
+        # Hypothesis raises the interpreter's recursion limit while a test runs; an ordinary caller has about 1000 frames
+        import inspect
+        import sys
+        old_limit = sys.getrecursionlimit()
+        sys.setrecursionlimit(len(inspect.stack(0)) + 950)
+        try:
+            paths = ctx.must("sorted_paths_raises", CN.sorted_cn_paths, cn)
+        finally:
+            sys.setrecursionlimit(old_limit)
+        ctx.check(len(paths) == n_paths and abs(sum(p for _, p in paths) - 1.0) < 1e-6 and paths[0][0] == base, "paths_of_long_network",
+                  lambda: "length %d: %d paths" % (n, len(paths)))
+    ctx.nontrivial(("long", case))
+
+
 UNITS = [
     Unit("history", "machine", machine=make_machine, quick=1600, thorough=30000, steps=8,
          replay_history=True),
     Unit("pairs_triples", "enum", body=body_enum, cases=enum_cases, exhaustive=True),
     Unit("bag", "given", body=body_bag, strategy=strat_bag, quick=800, thorough=20000),
+    Unit("long_networks", "given", body=body_long, strategy=strat_long, quick=60, thorough=600),
     Unit("paths", "given", body=body_paths, strategy=strat_paths, quick=800, thorough=20000),
 ]
